@@ -611,6 +611,9 @@ func grpcGunExtra(t *tr) string {
 	}
 	b.WriteString("/-- how `Bind` chooses the instance's stub -/\ndef bindStub : String := " + ggQuote(bindShape) + "\n\n")
 
+	// ---- endpoints, scenario gun's configuration hand-down, templater loop (area_grpcgun_net.go)
+	b.WriteString(grpcgunNetExtra(t, gp, sp))
+
 	// ---- config tags
 	if st := ggStruct(gp, "GunConfig"); st != nil {
 		b.WriteString("/-- exported fields of grpc `GunConfig` with their `config` tags -/\ndef gunConfigTags : List (String × String) := " + ggPairs(ggTagTable(st, "config")) + "\n\n")
